@@ -37,14 +37,16 @@ def c05_const_inequality_float_tie(c, k):
 def c10_proplogic_norm_full_complementary(c, k):
     """proplogic.norm_full collapses a complementary pair A, ~A inside a conjunction (disjunction) to false (true) only for
     some orders/nestings of the members; otherwise it returns the sorted members.  Covered: the members contain a
-    complementary pair and exactly one of the two normal forms contains the collapsed constant."""
+    complementary pair, the two normal forms differ and at least one of them contains the collapsed constant (the other keeps the
+    pair, or collapses only partly as in `B | true`)."""
     if c.get('kind') != 'conv-canonical:proplogic.norm_full':
         return False
     ms = set(c.get('members', []))
     comp = any(('~' + m) in ms for m in ms)
     const, sep = ('false', ' & ') if c.get('fam') == 'conj' else ('true', ' | ')
     has = lambda nf: const in nf.split(sep)
-    return comp and has(c.get('nf1', '')) != has(c.get('nf2', ''))
+    # the collapse happens for one arrangement and not (or only partly, e.g. `B | true`) for the other
+    return comp and c.get('nf1') != c.get('nf2') and (has(c.get('nf1', '')) or has(c.get('nf2', '')))
 
 
 @matcher('c10_int_norm_conv_eval_differs')
@@ -75,8 +77,23 @@ def c19_normalize_fraction_times_sum(c, k):
 
 @matcher('c19_normalize_splits_root_of_product')
 def c19_normalize_splits_root_of_product(c, k):
-    """poly.normalize turns sqrt(c * x * a) with a negative constant c into (a multiple of) sqrt(x) * sqrt(-a): the root of a
-    product is split into roots of the factors and the sign is put on whichever factor comes first, here a, which the conditions
-    make positive.  Only this shape (square root of negative constant times two variables, normalised) is covered."""
-    import re
-    return c.get('kind') == 'step-loses-definedness:normalize' and re.fullmatch(r'sqrt\(-[0-9/]+ \* x \* a\)', str(c.get('before', ''))) is not None
+    """poly.normalize turns the square root of a product / quotient with a negative constant factor (sqrt(-4 * x * a),
+    sqrt(x / a / -(1/2))) into roots of the factors and puts the sign on whichever factor comes first -- here a, which the
+    conditions make positive, so the result contains sqrt(-a) and has no real value where the input has one.  Only results
+    containing sqrt(-a) (with the harness condition a > 0) are covered."""
+    return c.get('kind') == 'step-loses-definedness:normalize' and 'sqrt(-a)' in str(c.get('after', ''))
+
+
+@matcher('c19_normalize_terms_reordered')
+def c19_normalize_terms_reordered(c, k):
+    """poly.normalize orders the terms of a sum before their arguments are normalised, so a second normalisation (which sees
+    the normalised arguments) can put the same signed terms in another order.  Only a pure reordering of the additive terms
+    is covered."""
+    return c.get('kind') == 'normalize-not-idempotent' and c.get('shape') == 'terms-reordered'
+
+
+@matcher('c19_normalize_powers_merged_late')
+def c19_normalize_powers_merged_late(c, k):
+    """poly.normalize leaves a product of two powers of one base (x * x, x * x ^ 2) in a denominator and merges it into one
+    power (x ^ 2, x ^ 3) only when applied again; both forms have the same value.  Only that shape is covered."""
+    return c.get('kind') == 'normalize-not-idempotent' and c.get('shape') == 'powers-merged'
